@@ -26,7 +26,8 @@ Record hstate := HS {
   hreg : list nat;
   hidx : idxt;
   htyped : bool;
-  hcalc : calcspec
+  hcalc : calcspec;
+  hfresh : bool      (* the system root still holds its initial EMPTY LIST object (`_children = []`, not None) *)
 }.
 
 Record hworld := HW { htrees : list hstate; hnext : nat }.
@@ -35,20 +36,24 @@ Definition dummy_i : info := I 0 0 0 false [] (DInt 0) None [].
 
 (* Tree.__init__: the system root has no parent and belongs to the tree *)
 Definition h_empty (ty : bool) (c : calcspec) : hstate :=
-  HS (fun _ => None) (fun _ => []) (fun n => Nat.eqb n 0) (fun _ => dummy_i) [] [] [] ty c.
+  HS (fun _ => None) (fun _ => []) (fun n => Nat.eqb n 0) (fun _ => dummy_i) [] [] [] ty c true.
 
 Definition set_par (h : hstate) (n : nat) (v : option nat) : hstate :=
-  HS (upd (hpar h) n v) (hch h) (htr h) (hinf h) (hall h) (hreg h) (hidx h) (htyped h) (hcalc h).
+  HS (upd (hpar h) n v) (hch h) (htr h) (hinf h) (hall h) (hreg h) (hidx h) (htyped h) (hcalc h) (hfresh h).
 Definition set_chl (h : hstate) (n : nat) (v : list nat) : hstate :=
-  HS (hpar h) (upd (hch h) n v) (htr h) (hinf h) (hall h) (hreg h) (hidx h) (htyped h) (hcalc h).
+  HS (hpar h) (upd (hch h) n v) (htr h) (hinf h) (hall h) (hreg h) (hidx h) (htyped h) (hcalc h) (hfresh h).
 Definition set_tr (h : hstate) (n : nat) (v : bool) : hstate :=
-  HS (hpar h) (hch h) (upd (htr h) n v) (hinf h) (hall h) (hreg h) (hidx h) (htyped h) (hcalc h).
+  HS (hpar h) (hch h) (upd (htr h) n v) (hinf h) (hall h) (hreg h) (hidx h) (htyped h) (hcalc h) (hfresh h).
 Definition set_inf (h : hstate) (n : nat) (v : info) : hstate :=
-  HS (hpar h) (hch h) (htr h) (upd (hinf h) n v) (hall h) (hreg h) (hidx h) (htyped h) (hcalc h).
+  HS (hpar h) (hch h) (htr h) (upd (hinf h) n v) (hall h) (hreg h) (hidx h) (htyped h) (hcalc h) (hfresh h).
 Definition set_regidx (h : hstate) (r : list nat) (ix : idxt) : hstate :=
-  HS (hpar h) (hch h) (htr h) (hinf h) (hall h) r ix (htyped h) (hcalc h).
+  HS (hpar h) (hch h) (htr h) (hinf h) (hall h) r ix (htyped h) (hcalc h) (hfresh h).
 Definition add_all (h : hstate) (n : nat) : hstate :=
-  HS (hpar h) (hch h) (htr h) (hinf h) (hall h ++ [n]) (hreg h) (hidx h) (htyped h) (hcalc h).
+  HS (hpar h) (hch h) (htr h) (hinf h) (hall h ++ [n]) (hreg h) (hidx h) (htyped h) (hcalc h) (hfresh h).
+
+(* the root's list object is (re)assigned or emptied: from now on an empty child list is None *)
+Definition touch_root (h : hstate) (p : nat) : hstate :=
+  if Nat.eqb p 0 then HS (hpar h) (hch h) (htr h) (hinf h) (hall h) (hreg h) (hidx h) (htyped h) (hcalc h) false else h.
 
 Definition hdid (h : hstate) (n : nat) : did := i_did (hinf h n).
 Definition memn (n : nat) (l : list nat) : bool := existsb (Nat.eqb n) l.
@@ -121,7 +126,7 @@ Definition h_op_add (w : hworld) (ti p : nat) (d : dat) (explicit : option did) 
               else
                 let h2 := h_register h1 n in
                 let h3 := set_chl h2 p (place_ids nb n (hch h2 p)) in
-                (Ok [n], h_put w1 ti h3)
+                (Ok [n], h_put w1 ti (touch_root h3 p))
           end
   end.
 
@@ -147,7 +152,7 @@ Definition h_fuel (h : hstate) : nat := S (length (hall h)).
 (* Node.remove_children *)
 Definition h_remove_children (h : hstate) (n : nat) : hstate :=
   let h1 := fold_left h_unregister (h_post (h_fuel h) h n) h in
-  set_chl h1 n [].
+  touch_root (set_chl h1 n []) n.
 
 Fixpoint remove_first_n (n : nat) (l : list nat) : list nat :=
   match l with
@@ -234,7 +239,7 @@ Definition h_move_do (h : hstate) (n target : nat) (nb : nbefore) : hstate :=
   | Some p =>
       let h1 := set_chl h p (remove_first_n n (hch h p)) in       (* del self._parent._children[idx] *)
       let h2 := set_par h1 n (Some target) in                     (* self._parent = new_parent *)
-      set_chl h2 target (place_ids nb n (hch h2 target))          (* insert / append *)
+      touch_root (set_chl h2 target (place_ids nb n (hch h2 target))) target   (* insert / append *)
   end.
 
 Definition h_op_move (w : hworld) (ti n tti target : nat) (b : before) : res * hworld :=
@@ -367,6 +372,6 @@ Definition sx_hnode (h : hstate) (n : nat) : sx :=
      match hch h n with [] => L [] | l => L [sx_ids l] end;            (* _children: None / list *)
      sx_bool (htr h n)].                                               (* _tree is not None *)
 Definition sx_hstate (h : hstate) : sx :=
-  L [ match hch h 0 with [] => L [] | l => L [sx_ids l] end;           (* root._children *)
+  L [ match hch h 0 with [] => if hfresh h then L [L []] else L [] | l => L [sx_ids l] end;   (* root._children *)
       L (map (sx_hnode h) (hall h)) ].
 Definition sx_hworld (w : hworld) : sx := L (map sx_hstate (htrees w)).
